@@ -158,6 +158,13 @@ def lockstep(live, cut, uid_n, depth, trail, kind, stats, base_t, k=0):
                                f"{_short(o_l)}, cut state emits {[e['type'] for e in o_c]} {_short(o_c)}", trail + [aev])
             if o_l:
                 stats["lockstep_steps_with_output"] += 1
+            # what the library's state-reading actions answer (CheckValidFlowExistsAction: `flow_id in state.flow_id_states`)
+            q_l, q_c = _state_queries(st_l), _state_queries(st_c)
+            if q_l != q_c:
+                diff = sorted(k for k in q_l if q_l[k] != q_c.get(k))
+                raise Mismatch(f"{kind}:state-reading-action-answers-differ",
+                               f"after {kind}, event {aev[1] if aev[0] == 'ext' else aev}: `flow_id in state.flow_id_states` (CheckValidFlowExistsAction) "
+                               f"differs for {diff}: live {[q_l[k] for k in diff]}, cut {[q_c.get(k) for k in diff]}", trail + [aev])
             if C09_ON_CUT_STATES:
                 # C09 piggybacks: its invariant is evaluated on every state reached after a cut
                 from vf.props import c09 as _c09
@@ -187,6 +194,10 @@ def _cut_time(base_t, kind, k):
     if kind in ("AGE_EACH", "RESTORE_AGED"):
         return base_t + _6S * (k + 1)
     return base_t
+
+
+def _state_queries(state):
+    return {fid: fid in state.flow_id_states for fid in state.flow_configs}
 
 
 def _short(o):
@@ -341,8 +352,28 @@ def run(rep, tier):
     rep.set("evaluations", agg.get("lockstep_steps", 0))
     rep.set("distinct_nontrivial", agg.get("lockstep_steps_with_output", 0))
     rep.set("rule", "every reachable state (depth bound) of every program is a cut point for SAVE_RESTORE and AGE; every continuation (length bound) is run on live and cut copy; non-trivial = lock-step steps that produced outgoing events")
+    # ---- API part: snapshots handed out by generate_async (vf/props/c11_api.py)
+    from vf.props import c11_api
+    if tier == "quick":
+        ats = [("double-submit", 2, 60), ("abandon-and-retry", 3, 60), ("abandon-retry-and-double-submit", 1, 60)]
+    else:
+        ats = [("double-submit", 5, 600), ("triple-submit", 3, 600), ("abandon-and-retry", 6, 600), ("abandon-retry-and-double-submit", 3, 600)]
+    api = {"executions": 0, "states": 0, "transitions": 0, "validated": 0, "overlapping_executions": 0, "cancelled_executions": 0,
+           "continuations_checked": 0, "distinct_outcomes": 0}
+    api_complete = True
+    for r in par.pmap(c11_api.explore, ats):
+        for k in api:
+            api[k] += r.get(k, 0)
+        api_complete = api_complete and r["complete"]
+        for sig, what, info in r["viol"]:
+            rep.violation(sig, what, info)
+    for k, v in api.items():
+        rep.set("api_" + k, v)
+    rep.set("api_scenarios", [f"{a[0]} (deviation bound {a[1]})" for a in ats])
+    rep.set("api_complete_within_deviation_bounds", api_complete)
     rep.set("exhaustive", True)
     rep.assumptions += [
+        "API part: a Colang 2.x world (core library, one LLM value generation in turn 2); turn 1 on the shared LLMRails instance, then requests that all carry the snapshot of turn 1 (double / triple submit, a request cancelled at any point and retried) on the virtual asyncio loop, every arrival / LLM completion / timer / cancellation order up to the stated number of deviations from the default schedule; oracle = a fresh instance restoring the same snapshot (reply, and the reply of the following turn continued from the returned state)",
         "programs: variable zoo (sets, nested containers, int-key dicts, regex, comparison expressions, tuples), references to flows/actions/events, shared actions, globals, forked heads, when scopes, activation restart, loops, flow parameters + deterministic subsets of the C06 hierarchy programs and C07 group programs",
         "live and cut copies continue with the same uid counter and the same tie-break vector, so outgoing events must be *equal* (not just equal up to renaming)",
         "AGE = virtual clock + 6 s before the continuation (clean-up threshold is 5 s); in the live copy the clock does not advance",
@@ -351,6 +382,9 @@ def run(rep, tier):
 
 
 def replay(rp):
+    if rp.get("part") == "api":
+        from vf.props import c11_api
+        return c11_api.replay(rp)
     src = rp["source"]
     st = v2x.init_state(src, with_rails_config=rp.get("program") in REF_PROGRAMS or rp.get("program") in ZOO)
     n = v2x.UIDS.n
